@@ -18,11 +18,13 @@ claims={
  "C11":("Variable write/read through the object API against a recording file system: the complete operation trace (path with canonical lower-case GUID for all 2^128 GUIDs, flags, single write of attrs||value) and the attribute-checked read are decided for symbolic names, masks and values.","2 C11"),
  "C12":("Inductive step on the real in-memory store (afero.MemMapFs interpreted): after an arbitrary previous value, a plain write of any shorter/equal/longer value is what the next read returns; other variables unchanged.","2 C12"),
  "C15":("Symbolic fault injection in the file-system dependency: every failing or short step of variable write and read surfaces as an error; all fault positions explored by forking.","2 C15"),
+ "C05":("SignPKCS7 output equals, byte for byte, a reference RFC 2315/X.690 encoding written in the harness, for every content length in the bound, three content types, symbolic content/certificate/issuer/serial bytes and a symbolic clock (signature and hash as uninterpreted functions).","2 C05"),
+ "C06":("SignEFIVariable output equals the specified AUTHENTICATION_2 layout byte for byte (UTC timestamp for every process time zone, header fields, bare detached SignedData over the specified buffer, payload) for symbolic names, GUIDs, attribute masks and payloads.","2 C06"),
 }
 partial={
+ "C05":" The library's own parse/verify of the result is covered by C04's harnesses only in unit form; third-party verifiers are outside.",
  "C11":" The legacy package-level API is not covered.",
- "C12":" Signed updates are not yet covered.",
- "C15":" Signer and image-reader failures and signed updates are not yet covered.",
+ "C15":" Reader failures after parsing (Hash/Verify) cannot occur: the parsed object reads from memory.",
  "C19":" Real goroutine schedules are not explored; Verify is not included.",
  "C03":" Re-parse digest equality, embedded-digest and verify-after-sign parts of the statement are not decided by this check.",
  "C01":" The per-position flip statement is covered only through equality with the specification's stream.",
